@@ -3,6 +3,7 @@ package main
 import (
 	"fmt"
 	"go/token"
+	"go/types"
 	"strings"
 
 	"golang.org/x/tools/go/ssa"
@@ -15,12 +16,13 @@ func init() {
 		Run:   checkC17,
 		Explanation: "The numeric clause (CalculateBackoff within +/-Jitter of the capped exponential, never negative, for every float input) needs an abstract interpretation of IEEE arithmetic through math.Pow and is NOT decided. Decided: (R1) an acquisition round first waits time.After(10 ms + rand*(90 ms)) in a select with ctx.Done(), makes at most 4 attempts (loop bound 0..3 inclusive, step 1), calls the acquisition function once per iteration and waits CalculateBackoff(DefaultBackoffConfig(), i) between iterations in a select with ctx.Done(); " +
 			"(R2) CircuitBreaker.Call runs under its mutex; while the state is Open and the cooldown has not elapsed the operation is not reachable; an error increments failures by 1 and opens the breaker at failures >= threshold; a success resets failures and closes it; " +
-			"(R3) RetryWithBackoff invokes the operation once per iteration, returns on success, on a permanent error, on ctx.Err() != nil / ctx.Done(), and when MaxAttempts > 0 and attempt >= MaxAttempts-1; attempt is incremented by 1 only after the backoff wait.",
+			"(R4) in CalculateBackoff the exponential term is clamped to MaxBackoff before any conversion to an integer duration (one structural necessary condition of the numeric clause); (R3) RetryWithBackoff invokes the operation once per iteration, returns on success, on a permanent error, on ctx.Err() != nil / ctx.Done(), and when MaxAttempts > 0 and attempt >= MaxAttempts-1; attempt is incremented by 1 only after the backoff wait.",
 		NotDecided: []string{"CalculateBackoff's numeric range for all float inputs (IEEE arithmetic through math.Pow)", "that rand.Float64 is uniform on [0,1)", "observed rounds in simulated elections (a runtime notion)"},
 		Assumptions: []string{"math/rand/v2.Float64 returns a value in [0,1)", "time.After semantics"},
 		Rules: map[string]string{
 			"R1": "initial wait == time.After(10ms + Duration(rand.Float64()*90ms)) in a select with ctx.Done(); loop test `i <= 3` on a counter starting at 0 with step 1; exactly one call of the acquisition function per iteration; inter-attempt wait == time.After(CalculateBackoff(DefaultBackoffConfig(), i)) in a select with ctx.Done()",
 			"R2": "fn() is under the breaker mutex; unreachable from the edge state==Open && since<cooldown; failures+1 on error; state=Open iff threshold <= failures (non-strict); failures=0 and state=Closed on success",
+			"R4": "in CalculateBackoff every float->integer conversion is applied to a value that depends on math.Pow only through the phi edge guarded by NOT (MaxBackoff < value) (one necessary condition of the numeric clause: no int64 overflow of the unclamped exponential)",
 			"R3": "one fn/breaker call per iteration; exits: err==nil, IsPermanentError(err), ctx.Err()!=nil, ctx.Done(), MaxAttempts>0 && attempt >= MaxAttempts-1; attempt+1 only on the timer case",
 		},
 	})
@@ -30,6 +32,100 @@ func checkC17(c *Ctx) {
 	acquisitionRoundRule(c, "R1")
 	breakerRule(c, "R2")
 	retryLoopRule(c, "R3")
+	backoffClampRule(c, "R4")
+}
+
+// backoffClampRule: in CalculateBackoff the exponential term (the value computed from
+// math.Pow) reaches a float->integer conversion only through the clamp against MaxBackoff:
+// an unclamped value overflows int64 for large attempt numbers (negative or huge waits).
+// This is one structural necessary condition of the numeric clause, not the clause itself.
+func backoffClampRule(c *Ctx, rule string) {
+	m := c.M
+	f := m.libFunc("CalculateBackoff")
+	if f == nil {
+		c.undecided(rule, "CalculateBackoff", nil, "function not found")
+		return
+	}
+	isFloat := func(t types.Type) bool {
+		b, ok := t.Underlying().(*types.Basic)
+		return ok && b.Info()&types.IsFloat != 0
+	}
+	isInt := func(t types.Type) bool {
+		b, ok := t.Underlying().(*types.Basic)
+		return ok && b.Info()&types.IsInteger != 0
+	}
+	// raw = values (transitively) computed from math.Pow without passing a phi
+	var pow *ssa.Call
+	eachInstr(f, func(in ssa.Instruction) {
+		if call, ok := isCallTo(valueOf(in), "math.Pow"); ok {
+			pow = call
+		}
+	})
+	if pow == nil {
+		c.undecided(rule, "exponential term", firstInstr(f), "no math.Pow call found in CalculateBackoff: the accepted shape (InitialBackoff * Multiplier^n, clamp, jitter, convert) was not recognised")
+		return
+	}
+	// unclamped(v): v depends on pow through arithmetic only, or through a phi edge that is not the clamp's pass-through edge
+	var unclamped func(v ssa.Value, depth int) bool
+	unclamped = func(v ssa.Value, depth int) bool {
+		if depth > 12 {
+			return false
+		}
+		switch x := v.(type) {
+		case *ssa.Call:
+			return x == pow
+		case *ssa.BinOp:
+			return unclamped(x.X, depth+1) || unclamped(x.Y, depth+1)
+		case *ssa.UnOp:
+			return unclamped(x.X, depth+1)
+		case *ssa.Convert:
+			return unclamped(x.X, depth+1)
+		case *ssa.Phi:
+			for i, e := range x.Edges {
+				if !unclamped(e, depth+1) {
+					continue
+				}
+				// the edge must carry "e is not above the cap": NOT (cap < e) or (e <= cap)
+				pred := x.Block().Preds[i]
+				succIdx := 0
+				for j, sx := range pred.Succs {
+					if sx == x.Block() {
+						succIdx = j
+					}
+				}
+				es := m.Sym.Of(e).String()
+				okEdge := false
+				for _, l := range m.EdgeLits(pred, succIdx) {
+					if l.S.Op != "bin" || !symMentions(l.S, "MaxBackoff") {
+						continue
+					}
+					a0, a1 := l.S.Args[0].String(), l.S.Args[1].String()
+					if (l.S.Name == "<" && a1 == es && !l.Truth) || (l.S.Name == "<=" && a0 == es && l.Truth) {
+						okEdge = true
+					}
+				}
+				if !okEdge {
+					return true
+				}
+			}
+			return false
+		}
+		return false
+	}
+	n := 0
+	eachInstr(f, func(in ssa.Instruction) {
+		cv, ok := in.(*ssa.Convert)
+		if !ok || !isFloat(cv.X.Type()) || !isInt(cv.Type()) {
+			return
+		}
+		n++
+		bad := unclamped(cv.X, 0)
+		c.check(!bad, rule, fmt.Sprintf("float->integer conversion #%d in CalculateBackoff is applied after the MaxBackoff clamp", n), in,
+			"the converted value %s depends on the exponential term without passing the clamp: %v (InitialBackoff * Multiplier^n overflows int64 from n of about 38: negative or absurd waits)", clip(m.Sym.Of(cv.X).String(), 120), bad)
+	})
+	if n == 0 {
+		c.undecided(rule, "conversion to Duration", firstInstr(f), "no float->integer conversion found in CalculateBackoff")
+	}
 }
 
 // acquisitionFn: the function issuing Create.
